@@ -123,3 +123,329 @@ theorem L_det_smul (c : ℂ) (A : Matrix n n ℂ) : (c • A).det = c ^ Fintype.
 theorem L_inv_smul (c : ℂ) (A : Matrix n n ℂ) (hc : IsUnit c) (hA : IsUnit A.det) : (c • A)⁻¹ = c⁻¹ • A⁻¹ := by
   obtain ⟨u, rfl⟩ := hc
   simpa using Matrix.inv_smul A u hA
+-- ===== second batch of restatements (easy group) =====
+-- further conventions: `cj A = A.map star` (entrywise conjugate; `cj (tr A) = Aᵀ.map star = Aᴴ` definitionally), `pinvp σ = σ⁻¹`, `permm σ = σ.permMatrix ℂ`,
+-- `isperm A = ∃ σ, A = σ.permMatrix ℂ`, `isreal A = (A.map star = A)`, `stief A = (Aᴴ * A = 1)`, `vnz d = ∀ i, d i ≠ 0`, `fnm (f_pow k) A = A ^ k` (k : ℕ or ℤ),
+-- `triu A = A.IsUpperTriangular`, `tril A = A.IsLowerTriangular` (linear order on the index), `ksum A B = A ⊗ₖ 1 + 1 ⊗ₖ B`, `vkron u v = fun ij => u ij.1 * v ij.2`,
+-- `vcat = Sum.elim`, `vrep v = fun ik => v ik.1`.  A restriction relative to the SMT axiom is flagged by a `-- scope:` comment; lemmas/aliases_extra.json maps axiom -> theorem(s).
+theorem L_smul_one (A : Matrix m n ℂ) : (1 : ℂ) • A = A := one_smul ℂ A
+theorem L_smul_zero (A : Matrix m n ℂ) : (0 : ℂ) • A = (0 : Matrix m n ℂ) := zero_smul ℂ A
+theorem L_tr_cj (A : Matrix m n ℂ) : (A.map star)ᵀ = Aᵀ.map star := rfl
+theorem L_cj_diagm (d : n → ℂ) : (Matrix.diagonal d).map star = Matrix.diagonal (fun i => star (d i)) := Matrix.diagonal_map (star_zero ℂ)
+theorem L_herm_def (A : Matrix n n ℂ) (h : A.IsHermitian) : Aᵀ.map star = A := h
+theorem L_unit_def (A : Matrix n n ℂ) (h : A ∈ Matrix.unitaryGroup n ℂ) : IsUnit A.det ∧ A⁻¹ = Aᵀ.map star ∧ Aᴴ * A = 1 := by
+  have h1 : Aᴴ * A = 1 := Matrix.mem_unitaryGroup_iff'.mp h
+  have h2 : A * Aᴴ = 1 := Matrix.mem_unitaryGroup_iff.mp h
+  refine ⟨?_, Matrix.inv_eq_right_inv h2, h1⟩
+  exact (Matrix.isUnit_iff_isUnit_det A).mp ⟨⟨A, Aᴴ, h2, h1⟩, rfl⟩
+theorem L_pow_m1 (A : Matrix n n ℂ) (h : IsUnit A.det) : A ^ (-1 : ℤ) = A⁻¹ := Matrix.zpow_neg_one A
+theorem L_pow_1 (A : Matrix n n ℂ) : A ^ 1 = A := pow_one A
+theorem L_pow_3 (A : Matrix n n ℂ) : A ^ 3 = A * (A * A) := by simp only [pow_succ', pow_zero, mul_one]
+theorem L_pow_4 (A : Matrix n n ℂ) : A ^ 4 = A * (A * (A * A)) := by simp only [pow_succ', pow_zero, mul_one]
+theorem L_pow_5 (A : Matrix n n ℂ) : A ^ 5 = A * (A * (A * (A * A))) := by simp only [pow_succ', pow_zero, mul_one]
+theorem L_pow_6 (A : Matrix n n ℂ) : A ^ 6 = A * (A * (A * (A * (A * A)))) := by simp only [pow_succ', pow_zero, mul_one]
+theorem L_pow_7 (A : Matrix n n ℂ) : A ^ 7 = A * (A * (A * (A * (A * (A * A))))) := by simp only [pow_succ', pow_zero, mul_one]
+theorem L_pow_8 (A : Matrix n n ℂ) : A ^ 8 = A * (A * (A * (A * (A * (A * (A * A)))))) := by simp only [pow_succ', pow_zero, mul_one]
+theorem L_pow_9 (A : Matrix n n ℂ) : A ^ 9 = A * (A * (A * (A * (A * (A * (A * (A * A))))))) := by simp only [pow_succ', pow_zero, mul_one]
+theorem L_pow_10 (A : Matrix n n ℂ) : A ^ 10 = A * (A * (A * (A * (A * (A * (A * (A * (A * A)))))))) := by simp only [pow_succ', pow_zero, mul_one]
+theorem L_pinv_pinv (σ : Equiv.Perm n) : σ⁻¹⁻¹ = σ := inv_inv σ
+theorem L_invok_cj (A : Matrix n n ℂ) : IsUnit (A.map star).det ↔ IsUnit A.det := by
+  have : (A.map star).det = star A.det := by
+    have := (RingHom.map_det (starRingEnd ℂ) A).symm
+    simpa using this
+  rw [this, isUnit_star]
+theorem L_invok_inv (A : Matrix n n ℂ) (h : IsUnit A.det) : IsUnit A⁻¹.det := Matrix.isUnit_nonsing_inv_det A h
+theorem L_invok_diagm (d : n → ℂ) : IsUnit (Matrix.diagonal d).det ↔ ∀ i, d i ≠ 0 := by
+  rw [Matrix.det_diagonal, isUnit_iff_ne_zero, Finset.prod_ne_zero_iff]; simp
+theorem L_inv_unique_l (A B : Matrix n n ℂ) (h : IsUnit A.det) (hAB : A * B = 1) : B = A⁻¹ := (Matrix.inv_eq_right_inv hAB).symm
+theorem L_tr_permm (σ : Equiv.Perm n) : (σ.permMatrix ℂ)ᵀ = (σ⁻¹).permMatrix ℂ := by
+  ext i j
+  simp only [Equiv.Perm.permMatrix, PEquiv.toMatrix_apply, Equiv.Perm.inv_def, transpose_apply, Equiv.toPEquiv_apply, Option.mem_def, Option.some.injEq]
+  congr 1
+  exact propext ⟨fun h => by rw [← h]; simp, fun h => by rw [← h]; simp⟩
+theorem L_inv_permm (σ : Equiv.Perm n) :
+    (σ.permMatrix ℂ)⁻¹ = (σ⁻¹).permMatrix ℂ ∧ IsUnit (σ.permMatrix ℂ).det ∧ σ.permMatrix ℂ ∈ Matrix.unitaryGroup n ℂ := by
+  have h1 : σ.permMatrix ℂ * (σ⁻¹).permMatrix ℂ = 1 := by
+    rw [← Matrix.permMatrix_mul]; simp
+  have hstar : (σ.permMatrix ℂ)ᴴ = (σ⁻¹).permMatrix ℂ := by
+    rw [← L_tr_permm]
+    ext i j
+    simp only [conjTranspose_apply, transpose_apply, Equiv.Perm.permMatrix, PEquiv.toMatrix_apply]
+    split_ifs <;> simp
+  refine ⟨Matrix.inv_eq_right_inv h1, ?_, ?_⟩
+  · rw [Matrix.det_permutation, isUnit_iff_ne_zero]; exact_mod_cast (Equiv.Perm.sign σ).ne_zero
+  · rw [Matrix.mem_unitaryGroup_iff, star_eq_conjTranspose, hstar]; exact h1
+-- triangular: triu A = A.BlockTriangular id (IsUpperTriangular), tril A = A.BlockTriangular toDual (IsLowerTriangular), for a linear order on the index
+theorem L_tri_diagm [LinearOrder n] (d : n → ℂ) : (Matrix.diagonal d).IsLowerTriangular ∧ (Matrix.diagonal d).IsUpperTriangular :=
+  ⟨Matrix.blockTriangular_diagonal d, Matrix.blockTriangular_diagonal d⟩
+-- isperm A = ∃ σ, A = permMatrix σ;  isreal A = (A.map star = A)
+theorem L_tri_eye [LinearOrder n] :
+    (1 : Matrix n n ℂ).IsLowerTriangular ∧ (1 : Matrix n n ℂ).IsUpperTriangular ∧ (∃ σ : Equiv.Perm n, (1 : Matrix n n ℂ) = σ.permMatrix ℂ) ∧
+    (1 : Matrix n n ℂ).IsHermitian ∧ (1 : Matrix n n ℂ).PosSemidef ∧ (1 : Matrix n n ℂ) ∈ Matrix.unitaryGroup n ℂ ∧ (1 : Matrix n n ℂ).map star = 1 :=
+  ⟨Matrix.blockTriangular_one, Matrix.blockTriangular_one, ⟨1, by simp⟩, Matrix.isHermitian_one, Matrix.PosSemidef.one, one_mem _,
+    by ext i j; simp [Matrix.one_apply]⟩
+theorem L_tril_tr [LinearOrder n] (A : Matrix n n ℂ) : (Aᵀ.IsLowerTriangular ↔ A.IsUpperTriangular) ∧ (Aᵀ.IsUpperTriangular ↔ A.IsLowerTriangular) := by
+  constructor
+  · exact ⟨fun h i j hij => h (i := j) (j := i) hij, fun h i j hij => h (i := j) (j := i) hij⟩
+  · exact ⟨fun h i j hij => h (i := j) (j := i) hij, fun h i j hij => h (i := j) (j := i) hij⟩
+theorem L_herm_kron (A : Matrix m m ℂ) (B : Matrix n n ℂ) (hA : A.IsHermitian) (hB : B.IsHermitian) : (A ⊗ₖ B).IsHermitian := by
+  unfold Matrix.IsHermitian; rw [Matrix.conjTranspose_kronecker, hA.eq, hB.eq]
+theorem L_psd_herm_kron (A : Matrix m m ℂ) (B : Matrix n n ℂ) (hA : A.PosSemidef) (hB : B.PosSemidef) : (A ⊗ₖ B).IsHermitian := (hA.kronecker hB).isHermitian
+theorem L_psd_trp (A : Matrix n n ℂ) (hA : A.PosSemidef) : Aᵀ.PosSemidef ∧ (A.map star).PosSemidef := ⟨hA.transpose, hA.conjTranspose.transpose⟩
+theorem L_unit_trp (A : Matrix n n ℂ) (hA : A ∈ Matrix.unitaryGroup n ℂ) : Aᵀ ∈ Matrix.unitaryGroup n ℂ ∧ A.map star ∈ Matrix.unitaryGroup n ℂ := by
+  have h1 : Aᴴ * A = 1 := Matrix.mem_unitaryGroup_iff'.mp hA
+  have h2 : A * Aᴴ = 1 := Matrix.mem_unitaryGroup_iff.mp hA
+  have t1 : Aᵀ * Aᴴᵀ = 1 := by rw [← Matrix.transpose_mul, h1, Matrix.transpose_one]
+  have t2 : Aᴴᵀ * Aᵀ = 1 := by rw [← Matrix.transpose_mul, h2, Matrix.transpose_one]
+  have e1 : Aᵀᴴ = Aᴴᵀ := rfl
+  have e2 : (A.map star)ᴴ = Aᵀ := by ext i j; simp
+  constructor
+  · rw [Matrix.mem_unitaryGroup_iff, star_eq_conjTranspose, e1]; exact t1
+  · rw [Matrix.mem_unitaryGroup_iff, star_eq_conjTranspose, e2]; exact t2
+theorem L_stief_mmul (A : Matrix l m ℂ) (B : Matrix m n ℂ) (hA : Aᴴ * A = 1) (hB : Bᴴ * B = 1) : (A * B)ᴴ * (A * B) = 1 := by
+  rw [Matrix.conjTranspose_mul, Matrix.mul_assoc, ← Matrix.mul_assoc Aᴴ, hA, Matrix.one_mul, hB]
+theorem L_psd_smul_eye (x : ℝ) (hx : 0 ≤ x) : ((x : ℂ) • (1 : Matrix n n ℂ)).PosSemidef := by
+  have : (0 : ℂ) ≤ (x : ℂ) := by exact_mod_cast hx
+  exact Matrix.PosSemidef.one.smul this
+theorem L_herm_smul_real (x : ℝ) (A : Matrix n n ℂ) (hA : A.IsHermitian) : ((x : ℂ) • A).IsHermitian := by
+  unfold Matrix.IsHermitian; rw [Matrix.conjTranspose_smul, hA.eq]; simp
+theorem L_psd_tr_mul_real (A : Matrix m n ℂ) (hr : A.map star = A) : (Aᵀ * A).PosSemidef ∧ (A * Aᵀ).PosSemidef := by
+  have e : Aᵀ = Aᴴ := by
+    calc Aᵀ = (A.map star)ᵀ := by rw [hr]
+      _ = Aᴴ := rfl
+  rw [e]; exact ⟨Matrix.posSemidef_conjTranspose_mul_self A, Matrix.posSemidef_self_mul_conjTranspose A⟩
+theorem L_psd_mul_tr_real (A : Matrix m n ℂ) (hr : A.map star = A) : (A * Aᵀ).PosSemidef := (L_psd_tr_mul_real A hr).2
+-- k-th diagonal: dgk A k = diag (A.submatrix r c) with r i = i, c i = i + k (k >= 0) or r i = i - k, c i = i (k < 0); stated for arbitrary index maps r, c
+-- scope: dgk_madd / dgk_smul: the k-th diagonal is rendered as the diagonal of a submatrix along arbitrary row/column index maps (covers every k)
+theorem L_dgk_madd {ι : Type*} (A B : Matrix m n ℂ) (r : ι → m) (c : ι → n) :
+    ((A + B).submatrix r c).diag = (A.submatrix r c).diag + (B.submatrix r c).diag := by
+  ext i; simp [Matrix.diag]
+theorem L_dgk_smul {ι : Type*} (x : ℂ) (A : Matrix m n ℂ) (r : ι → m) (c : ι → n) :
+    ((x • A).submatrix r c).diag = x • (A.submatrix r c).diag := by
+  ext i; simp [Matrix.diag]
+theorem L_dg_kron (A : Matrix m m ℂ) (B : Matrix n n ℂ) : (A ⊗ₖ B).diag = fun ij : m × n => A.diag ij.1 * B.diag ij.2 := by
+  ext ⟨i, j⟩; simp [Matrix.diag, Matrix.kroneckerMap_apply]
+theorem L_kron_mmul3 {r s : Type*} [Fintype s] (A : Matrix l m ℂ) (C : Matrix m n ℂ) (B : Matrix p q ℂ) (D : Matrix q s ℂ) (E : Matrix (n × s) r ℂ) :
+    (A ⊗ₖ B) * ((C ⊗ₖ D) * E) = ((A * C) ⊗ₖ (B * D)) * E := by
+  rw [← Matrix.mul_assoc, ← Matrix.mul_kronecker_mul]
+-- eye(n*m) is the identity on the product index l × m; the two sides differ by the reindexing along Equiv.prodAssoc
+theorem L_eye_kron_nested (A : Matrix n p ℂ) :
+    (1 : Matrix l l ℂ) ⊗ₖ ((1 : Matrix m m ℂ) ⊗ₖ A) = Matrix.reindex (Equiv.prodAssoc l m n) (Equiv.prodAssoc l m p) ((1 : Matrix (l × m) (l × m) ℂ) ⊗ₖ A) := by
+  rw [← Matrix.one_kronecker_one, Matrix.kronecker_assoc]
+-- Kronecker sum (ksum_def): ksum A B = A ⊗ₖ 1 + 1 ⊗ₖ B for square A, B
+-- scope: tr_ksum / cj_ksum: square factors (ksum is only defined, by ksum_def, for square arguments)
+theorem L_tr_ksum (A : Matrix m m ℂ) (B : Matrix n n ℂ) :
+    (A ⊗ₖ (1 : Matrix n n ℂ) + (1 : Matrix m m ℂ) ⊗ₖ B)ᵀ = Aᵀ ⊗ₖ (1 : Matrix n n ℂ) + (1 : Matrix m m ℂ) ⊗ₖ Bᵀ := by
+  rw [Matrix.transpose_add, ← Matrix.kroneckerMap_transpose, ← Matrix.kroneckerMap_transpose, Matrix.transpose_one, Matrix.transpose_one]
+theorem L_cj_ksum (A : Matrix m m ℂ) (B : Matrix n n ℂ) :
+    (A ⊗ₖ (1 : Matrix n n ℂ) + (1 : Matrix m m ℂ) ⊗ₖ B).map star = (A.map star) ⊗ₖ (1 : Matrix n n ℂ) + (1 : Matrix m m ℂ) ⊗ₖ (B.map star) := by
+  ext ⟨i, j⟩ ⟨i', j'⟩
+  simp only [Matrix.map_apply, Matrix.add_apply, Matrix.kroneckerMap_apply, star_add, star_mul', Matrix.one_apply]
+  split_ifs <;> simp
+-- powers of Kronecker products
+theorem L_pow_kron_nat (A : Matrix m m ℂ) (B : Matrix n n ℂ) (k : ℕ) : (A ⊗ₖ B) ^ k = (A ^ k) ⊗ₖ (B ^ k) := by
+  induction k with
+  | zero => simp
+  | succ k ih => rw [pow_succ, pow_succ, pow_succ, ih, Matrix.mul_kronecker_mul]
+theorem L_pow_kron_int (A : Matrix m m ℂ) (B : Matrix n n ℂ) (hA : IsUnit A.det) (hB : IsUnit B.det) (k : ℤ) : (A ⊗ₖ B) ^ k = (A ^ k) ⊗ₖ (B ^ k) := by
+  cases k with
+  | ofNat k => simp only [Int.ofNat_eq_natCast, zpow_natCast]; exact L_pow_kron_nat A B k
+  | negSucc k => rw [zpow_negSucc, zpow_negSucc, zpow_negSucc]; rw [L_pow_kron_nat, Matrix.inv_kronecker]
+theorem L_pow_kron_int_m3 (A : Matrix m m ℂ) (B : Matrix n n ℂ) (hA : IsUnit A.det) (hB : IsUnit B.det) : (A ⊗ₖ B) ^ (-3 : ℤ) = (A ^ (-3 : ℤ)) ⊗ₖ (B ^ (-3 : ℤ)) := L_pow_kron_int A B hA hB _
+theorem L_pow_kron_int_m2 (A : Matrix m m ℂ) (B : Matrix n n ℂ) (hA : IsUnit A.det) (hB : IsUnit B.det) : (A ⊗ₖ B) ^ (-2 : ℤ) = (A ^ (-2 : ℤ)) ⊗ₖ (B ^ (-2 : ℤ)) := L_pow_kron_int A B hA hB _
+theorem L_pow_kron_int_m1 (A : Matrix m m ℂ) (B : Matrix n n ℂ) (hA : IsUnit A.det) (hB : IsUnit B.det) : (A ⊗ₖ B) ^ (-1 : ℤ) = (A ^ (-1 : ℤ)) ⊗ₖ (B ^ (-1 : ℤ)) := L_pow_kron_int A B hA hB _
+theorem L_pow_kron_int_0 (A : Matrix m m ℂ) (B : Matrix n n ℂ) : (A ⊗ₖ B) ^ 0 = (A ^ 0) ⊗ₖ (B ^ 0) := L_pow_kron_nat A B 0
+theorem L_pow_kron_int_1 (A : Matrix m m ℂ) (B : Matrix n n ℂ) : (A ⊗ₖ B) ^ 1 = (A ^ 1) ⊗ₖ (B ^ 1) := L_pow_kron_nat A B 1
+theorem L_pow_kron_int_2 (A : Matrix m m ℂ) (B : Matrix n n ℂ) : (A ⊗ₖ B) ^ 2 = (A ^ 2) ⊗ₖ (B ^ 2) := L_pow_kron_nat A B 2
+theorem L_pow_kron_int_3 (A : Matrix m m ℂ) (B : Matrix n n ℂ) : (A ⊗ₖ B) ^ 3 = (A ^ 3) ⊗ₖ (B ^ 3) := L_pow_kron_nat A B 3
+theorem L_pow_kron_int_9 (A : Matrix m m ℂ) (B : Matrix n n ℂ) : (A ⊗ₖ B) ^ 9 = (A ^ 9) ⊗ₖ (B ^ 9) := L_pow_kron_nat A B 9
+theorem L_pow_kron_int_10 (A : Matrix m m ℂ) (B : Matrix n n ℂ) : (A ⊗ₖ B) ^ 10 = (A ^ 10) ⊗ₖ (B ^ 10) := L_pow_kron_nat A B 10
+-- n-ary Kronecker determinants (right-nested products, exponent of det A_i = product of the sizes of the other factors, as gen_kron_det_lemmas writes them)
+theorem L_sld_kron3 (A : Matrix m m ℂ) (B : Matrix n n ℂ) (C : Matrix p p ℂ) :
+    (A ⊗ₖ (B ⊗ₖ C)).det = A.det ^ (Fintype.card n * Fintype.card p) * (B.det ^ (Fintype.card m * Fintype.card p) * C.det ^ (Fintype.card m * Fintype.card n)) := by
+  rw [Matrix.det_kronecker, Matrix.det_kronecker, Fintype.card_prod, mul_pow, ← pow_mul, ← pow_mul]
+  congr 2 <;> ring
+theorem L_sld_kron4 (A : Matrix m m ℂ) (B : Matrix n n ℂ) (C : Matrix p p ℂ) (D : Matrix q q ℂ) :
+    (A ⊗ₖ (B ⊗ₖ (C ⊗ₖ D))).det = A.det ^ (Fintype.card n * Fintype.card p * Fintype.card q) *
+      (B.det ^ (Fintype.card m * Fintype.card p * Fintype.card q) * (C.det ^ (Fintype.card m * Fintype.card n * Fintype.card q) * D.det ^ (Fintype.card m * Fintype.card n * Fintype.card p))) := by
+  rw [Matrix.det_kronecker, L_sld_kron3, Fintype.card_prod, Fintype.card_prod, mul_pow, mul_pow, ← pow_mul, ← pow_mul, ← pow_mul]
+  congr 2
+  · ring
+  · congr 1; ring
+  · congr 2 <;> ring
+-- triangular determinant: det = product of the diagonal (sgn / ld are the phase and log-modulus of it), and a non-singular triangular matrix has a non-zero diagonal
+theorem L_sld_tri [LinearOrder n] (A : Matrix n n ℂ) (h : A.IsLowerTriangular ∨ A.IsUpperTriangular) (hA : IsUnit A.det) : A.det = ∏ i, A i i := by
+  rcases h with h | h
+  · exact Matrix.det_of_isLowerTriangular A h
+  · exact Matrix.det_of_isUpperTriangular h
+theorem L_vnz_tri [LinearOrder n] (A : Matrix n n ℂ) (h : A.IsLowerTriangular ∨ A.IsUpperTriangular) (hA : IsUnit A.det) : ∀ i, A.diag i ≠ 0 := by
+  rw [L_sld_tri A h hA, isUnit_iff_ne_zero, Finset.prod_ne_zero_iff] at hA
+  intro i; exact hA i (Finset.mem_univ i)
+-- ===== block diagonal group (bd a b = fromBlocks a 0 0 b;  rep a k = blockDiagonal (fun _ : m => a), m the k-element block index) =====
+theorem L_cj_bd (A : Matrix l m ℂ) (D : Matrix n p ℂ) : (Matrix.fromBlocks A 0 0 D).map star = Matrix.fromBlocks (A.map star) 0 0 (D.map star) := by
+  rw [Matrix.fromBlocks_map]; simp
+theorem L_cj_rep (A : Matrix n p ℂ) : (Matrix.blockDiagonal (fun _ : m => A)).map star = Matrix.blockDiagonal (fun _ : m => A.map star) :=
+  Matrix.blockDiagonal_map (fun _ : m => A) star (star_zero ℂ)
+-- scope: inv_bd: square blocks (an invertible block diagonal matrix has square blocks, axiom invok_bd)
+theorem L_inv_bd (A : Matrix m m ℂ) (D : Matrix n n ℂ) (h : IsUnit (Matrix.fromBlocks A 0 0 D).det) :
+    (Matrix.fromBlocks A 0 0 D)⁻¹ = Matrix.fromBlocks A⁻¹ 0 0 D⁻¹ := by
+  rw [Matrix.det_fromBlocks_zero₂₁, IsUnit.mul_iff] at h
+  have hA : IsUnit A := (Matrix.isUnit_iff_isUnit_det A).mpr h.1
+  have hD : IsUnit D := (Matrix.isUnit_iff_isUnit_det D).mpr h.2
+  have := Matrix.inv_fromBlocks_zero₂₁_of_isUnit_iff A 0 D ⟨fun _ => hD, fun _ => hA⟩
+  simpa using this
+-- scope: inv_rep: square block (as invok_rep gives); n >= 1 is Nonempty m
+theorem L_inv_rep [Nonempty m] (A : Matrix n n ℂ) (h : IsUnit (Matrix.blockDiagonal (fun _ : m => A)).det) :
+    (Matrix.blockDiagonal (fun _ : m => A))⁻¹ = Matrix.blockDiagonal (fun _ : m => A⁻¹) := by
+  have hA : IsUnit A.det := by
+    rw [Matrix.det_blockDiagonal, Finset.prod_const, Finset.card_univ] at h
+    exact (isUnit_pow_iff Fintype.card_ne_zero).mp h
+  apply Matrix.inv_eq_right_inv
+  rw [← Matrix.blockDiagonal_mul]
+  simp only [Matrix.mul_nonsing_inv A hA]
+  exact Matrix.blockDiagonal_one
+-- triangular block diagonals: the index m ⊕ n is ordered lexicographically (all of m before all of n), the index n × m of rep block-major (toLex (block, inner))
+theorem L_triu_bd [LinearOrder m] [LinearOrder n] (A : Matrix m m ℂ) (D : Matrix n n ℂ) (hA : A.IsUpperTriangular) (hD : D.IsUpperTriangular) :
+    (Matrix.fromBlocks A 0 0 D).BlockTriangular (fun i : m ⊕ n => (toLex i : m ⊕ₗ n)) := by
+  rintro (i | i) (j | j) hij
+  · exact hA (Sum.Lex.inl_lt_inl_iff.mp hij)
+  · rfl
+  · rfl
+  · exact hD (Sum.Lex.inr_lt_inr_iff.mp hij)
+theorem L_tril_bd [LinearOrder m] [LinearOrder n] (A : Matrix m m ℂ) (D : Matrix n n ℂ) (hA : A.IsLowerTriangular) (hD : D.IsLowerTriangular) :
+    (Matrix.fromBlocks A 0 0 D).BlockTriangular (fun i : m ⊕ n => OrderDual.toDual (toLex i : m ⊕ₗ n)) := by
+  rintro (i | i) (j | j) hij
+  · exact hA (OrderDual.toDual_lt_toDual.mpr (Sum.Lex.inl_lt_inl_iff.mp (OrderDual.toDual_lt_toDual.mp hij)))
+  · rfl
+  · rfl
+  · exact hD (OrderDual.toDual_lt_toDual.mpr (Sum.Lex.inr_lt_inr_iff.mp (OrderDual.toDual_lt_toDual.mp hij)))
+theorem L_triu_rep [LinearOrder m] [LinearOrder n] (A : Matrix n n ℂ) (hA : A.IsUpperTriangular) :
+    (Matrix.blockDiagonal (fun _ : m => A)).BlockTriangular (fun ik : n × m => toLex (ik.2, ik.1)) := by
+  rintro ⟨i, k⟩ ⟨j, k'⟩ hij
+  rw [Matrix.blockDiagonal_apply]
+  split_ifs with hk
+  · subst hk
+    rcases (Prod.Lex.toLex_lt_toLex.mp hij) with h | ⟨_, h⟩
+    · exact absurd h (lt_irrefl _)
+    · exact hA h
+  · rfl
+theorem L_tril_rep [LinearOrder m] [LinearOrder n] (A : Matrix n n ℂ) (hA : A.IsLowerTriangular) :
+    (Matrix.blockDiagonal (fun _ : m => A)).BlockTriangular (fun ik : n × m => OrderDual.toDual (toLex (ik.2, ik.1))) := by
+  rintro ⟨i, k⟩ ⟨j, k'⟩ hij
+  rw [Matrix.blockDiagonal_apply]
+  split_ifs with hk
+  · subst hk
+    rcases (Prod.Lex.toLex_lt_toLex.mp (OrderDual.toDual_lt_toDual.mp hij)) with h | ⟨_, h⟩
+    · exact absurd h (lt_irrefl _)
+    · exact hA (OrderDual.toDual_lt_toDual.mpr h)
+  · rfl
+theorem L_herm_bd (A : Matrix m m ℂ) (D : Matrix n n ℂ) : (Matrix.fromBlocks A 0 0 D).IsHermitian ↔ A.IsHermitian ∧ D.IsHermitian := by
+  rw [Matrix.isHermitian_fromBlocks_iff]; simp
+theorem L_herm_rep [Nonempty m] (A : Matrix n n ℂ) : (Matrix.blockDiagonal (fun _ : m => A)).IsHermitian ↔ A.IsHermitian := by
+  unfold Matrix.IsHermitian
+  rw [Matrix.blockDiagonal_conjTranspose]
+  constructor
+  · intro h
+    have := congrFun (Matrix.blockDiagonal_injective h) (Classical.arbitrary m)
+    exact this
+  · intro h; simp only [h]
+-- (rectangular blocks: the axioms' side conditions cols(a) = rows(c), cols(b) = rows(d) are the shared index types)
+theorem L_bd_mmul3 {r s t : Type*} [Fintype s] (A : Matrix l m ℂ) (A' : Matrix m n ℂ) (D : Matrix p q ℂ) (D' : Matrix q s ℂ) (E : Matrix (n ⊕ s) t ℂ) :
+    Matrix.fromBlocks A 0 0 D * (Matrix.fromBlocks A' 0 0 D' * E) = Matrix.fromBlocks (A * A') 0 0 (D * D') * E := by
+  rw [← Matrix.mul_assoc, Matrix.fromBlocks_multiply]; simp
+theorem L_rep_mmul3 {r : Type*} (A : Matrix l n ℂ) (B : Matrix n p ℂ) (C : Matrix (p × m) r ℂ) :
+    Matrix.blockDiagonal (fun _ : m => A) * (Matrix.blockDiagonal (fun _ : m => B) * C) = Matrix.blockDiagonal (fun _ : m => A * B) * C := by
+  rw [← Matrix.mul_assoc, ← Matrix.blockDiagonal_mul]
+theorem L_stief_bd (A : Matrix l m ℂ) (D : Matrix n p ℂ) (hA : Aᴴ * A = 1) (hD : Dᴴ * D = 1) :
+    (Matrix.fromBlocks A 0 0 D)ᴴ * Matrix.fromBlocks A 0 0 D = 1 := by
+  rw [Matrix.fromBlocks_conjTranspose, Matrix.fromBlocks_multiply]; simp [hA, hD, Matrix.fromBlocks_one]
+theorem L_stief_rep (A : Matrix n p ℂ) (hA : Aᴴ * A = 1) :
+    (Matrix.blockDiagonal (fun _ : m => A))ᴴ * Matrix.blockDiagonal (fun _ : m => A) = 1 := by
+  rw [Matrix.blockDiagonal_conjTranspose, ← Matrix.blockDiagonal_mul]; simp only [hA]; exact Matrix.blockDiagonal_one
+theorem L_unit_bd (A : Matrix m m ℂ) (D : Matrix n n ℂ) (hA : A ∈ Matrix.unitaryGroup m ℂ) (hD : D ∈ Matrix.unitaryGroup n ℂ) :
+    Matrix.fromBlocks A 0 0 D ∈ Matrix.unitaryGroup (m ⊕ n) ℂ := by
+  rw [Matrix.mem_unitaryGroup_iff', star_eq_conjTranspose]
+  exact L_stief_bd A D (Matrix.mem_unitaryGroup_iff'.mp hA) (Matrix.mem_unitaryGroup_iff'.mp hD)
+theorem L_unit_rep (A : Matrix n n ℂ) (hA : A ∈ Matrix.unitaryGroup n ℂ) :
+    Matrix.blockDiagonal (fun _ : m => A) ∈ Matrix.unitaryGroup (n × m) ℂ := by
+  rw [Matrix.mem_unitaryGroup_iff', star_eq_conjTranspose]
+  exact L_stief_rep A (Matrix.mem_unitaryGroup_iff'.mp hA)
+theorem L_dg_bd (A : Matrix m m ℂ) (D : Matrix n n ℂ) : (Matrix.fromBlocks A 0 0 D).diag = Sum.elim A.diag D.diag := by
+  ext (i | i) <;> simp [Matrix.diag]
+theorem L_dg_rep (A : Matrix n n ℂ) : (Matrix.blockDiagonal (fun _ : m => A)).diag = fun ik : n × m => A.diag ik.1 := by
+  ext ⟨i, k⟩; simp [Matrix.diag, Matrix.blockDiagonal_apply]
+-- scope: fnm_rep / fnm_bd: f = exp (the primary matrix function for which Mathlib states the block lemmas), as L_fnm_diagm_exp / L_fnm_tr_exp
+set_option backward.isDefEq.respectTransparency false in
+theorem L_fnm_rep_exp (A : Matrix n n ℂ) : NormedSpace.exp (Matrix.blockDiagonal (fun _ : m => A)) = Matrix.blockDiagonal (fun _ : m => NormedSpace.exp A) := by
+  rw [Matrix.exp_blockDiagonal]
+  congr 1
+  open scoped Matrix.Norms.Operator in exact Pi.exp_def (fun _ : m => A)
+set_option backward.isDefEq.respectTransparency false in
+theorem L_fnm_bd_exp (A : Matrix m m ℂ) (D : Matrix n n ℂ) :
+    NormedSpace.exp (Matrix.fromBlocks A 0 0 D) = Matrix.fromBlocks (NormedSpace.exp A) 0 0 (NormedSpace.exp D) := by
+  let f : Matrix m m ℂ × Matrix n n ℂ →+* Matrix (m ⊕ n) (m ⊕ n) ℂ :=
+    { toFun := fun x => Matrix.fromBlocks x.1 0 0 x.2
+      map_one' := Matrix.fromBlocks_one
+      map_mul' := fun x y => by simp [Matrix.fromBlocks_multiply]
+      map_zero' := Matrix.fromBlocks_zero
+      map_add' := fun x y => by simp [Matrix.fromBlocks_add] }
+  have hf : Continuous f := Continuous.matrix_fromBlocks continuous_fst continuous_const continuous_const continuous_snd
+  open scoped Matrix.Norms.Operator in
+  have key := NormedSpace.map_exp f hf (A, D)
+  have e : NormedSpace.exp ((A, D) : Matrix m m ℂ × Matrix n n ℂ) = (NormedSpace.exp A, NormedSpace.exp D) := by
+    open scoped Matrix.Norms.Operator in
+    exact Prod.ext (Prod.fst_exp (A, D)) (Prod.snd_exp (A, D))
+  rw [e] at key
+  exact key.symm
+-- associativity up to the canonical reindexing of the index types
+theorem L_kron_assoc {r s : Type*} (A : Matrix l m ℂ) (B : Matrix n p ℂ) (C : Matrix r s ℂ) :
+    Matrix.reindex (Equiv.prodAssoc l n r) (Equiv.prodAssoc m p s) ((A ⊗ₖ B) ⊗ₖ C) = A ⊗ₖ (B ⊗ₖ C) := Matrix.kronecker_assoc A B C
+theorem L_ksum_assoc (A : Matrix l l ℂ) (B : Matrix m m ℂ) (C : Matrix n n ℂ) :
+    Matrix.reindex (Equiv.prodAssoc l m n) (Equiv.prodAssoc l m n)
+      ((A ⊗ₖ (1 : Matrix m m ℂ) + (1 : Matrix l l ℂ) ⊗ₖ B) ⊗ₖ (1 : Matrix n n ℂ) + (1 : Matrix (l × m) (l × m) ℂ) ⊗ₖ C)
+    = A ⊗ₖ (1 : Matrix (m × n) (m × n) ℂ) + (1 : Matrix l l ℂ) ⊗ₖ (B ⊗ₖ (1 : Matrix n n ℂ) + (1 : Matrix m m ℂ) ⊗ₖ C) := by
+  rw [Matrix.add_kronecker, Matrix.kronecker_add, ← Matrix.one_kronecker_one (m := l) (n := m), ← Matrix.one_kronecker_one (m := m) (n := n)]
+  simp only [Matrix.reindex_apply, Matrix.submatrix_add, ← Matrix.kronecker_assoc]
+  simp only [Pi.add_apply, add_assoc]
+theorem L_bd_assoc {r s t : Type*} (A : Matrix l m ℂ) (B : Matrix n p ℂ) (C : Matrix r s ℂ) :
+    Matrix.reindex (Equiv.sumAssoc l n r) (Equiv.sumAssoc m p s) (Matrix.fromBlocks (Matrix.fromBlocks A 0 0 B) 0 0 C)
+    = Matrix.fromBlocks A 0 0 (Matrix.fromBlocks B 0 0 C) := by
+  ext (i | i | i) (j | j | j) <;> simp [Matrix.reindex_apply]
+theorem L_psd_bd (A : Matrix m m ℂ) (D : Matrix n n ℂ) : (Matrix.fromBlocks A 0 0 D).PosSemidef ↔ A.PosSemidef ∧ D.PosSemidef := by
+  constructor
+  · intro h
+    refine ⟨?_, ?_⟩
+    · have := h.submatrix (Sum.inl : m → m ⊕ n)
+      convert this using 1
+      ext i j; simp
+    · have := h.submatrix (Sum.inr : n → m ⊕ n)
+      convert this using 1
+      ext i j; simp
+  · rintro ⟨hA, hD⟩
+    refine Matrix.PosSemidef.of_dotProduct_mulVec_nonneg ((L_herm_bd A D).mpr ⟨hA.isHermitian, hD.isHermitian⟩) ?_
+    intro x
+    have e : star x ⬝ᵥ (Matrix.fromBlocks A 0 0 D *ᵥ x) =
+        star (x ∘ Sum.inl) ⬝ᵥ (A *ᵥ (x ∘ Sum.inl)) + star (x ∘ Sum.inr) ⬝ᵥ (D *ᵥ (x ∘ Sum.inr)) := by
+      rw [Matrix.fromBlocks_mulVec]
+      simp [dotProduct, Fintype.sum_sum_type]
+    rw [e]
+    exact add_nonneg (hA.dotProduct_mulVec_nonneg _) (hD.dotProduct_mulVec_nonneg _)
+theorem L_psd_rep [Nonempty m] (A : Matrix n n ℂ) : (Matrix.blockDiagonal (fun _ : m => A)).PosSemidef ↔ A.PosSemidef := by
+  constructor
+  · intro h
+    have := h.submatrix (fun i : n => (i, Classical.arbitrary m))
+    convert this using 1
+    ext i j; simp [Matrix.blockDiagonal_apply]
+  · intro hA
+    refine Matrix.PosSemidef.of_dotProduct_mulVec_nonneg ((L_herm_rep A).mpr hA.isHermitian) ?_
+    intro x
+    have e : star x ⬝ᵥ (Matrix.blockDiagonal (fun _ : m => A) *ᵥ x) =
+        ∑ k : m, star (fun i => x (i, k)) ⬝ᵥ (A *ᵥ (fun i => x (i, k))) := by
+      simp only [dotProduct, Matrix.mulVec, Fintype.sum_prod_type, Matrix.blockDiagonal_apply, Pi.star_apply]
+      rw [Finset.sum_comm]
+      refine Finset.sum_congr rfl fun k _ => Finset.sum_congr rfl fun i _ => ?_
+      congr 1
+      refine Finset.sum_congr rfl fun j _ => ?_
+      simp [Finset.sum_ite_eq]
+    rw [e]
+    exact Finset.sum_nonneg fun k _ => hA.dotProduct_mulVec_nonneg _
